@@ -139,6 +139,7 @@ def mkData (S : Script) (W : World DV) (strKeys : Bool) : DataWorld DV where
     | some .div => divergeM
     | _ => pure none
   noInput := fun _ _ => false
+  isBranchInstance := fun _ _ => false
   neq := fun a b =>
     match S.find 8 0 a.tokOf with
     | some (.truth b) => pure b
